@@ -664,7 +664,49 @@ fn c03_sweep(thorough: bool) -> i32 {
             }
         }
     }
-    res.cov("evaluations", evals);
+    // identity half: "elevated" is what the kernel record says (is_admin == 1), whatever the user id. The real
+    // Claims::from_audit_entry is swept over user ids (thorough: all of 0..=70000; quick: 0..=1200 and 65530..=65540; and the boundaries of 16/31/32/64 bits) with
+    // is_admin in {0, 2, -1}: never elevated, and Forbidden for the root-only endpoints without rules and under an allowing rule set
+    let mut id_cases = 0u64;
+    {
+        let rt = tokio::runtime::Builder::new_current_thread().enable_all().build().unwrap();
+        rt.block_on(async {
+            let shared = gpa_harness::shared_state::SharedState::start_all();
+            let ps = shared.get_proxy_server_shared_state();
+            let allow_all = ComputedAuthorizationItem::from_authorization_item(to_item(&Doc { privs: None, roles: None, ids: None, asgs: None }, "enforce", "allow"));
+            let mut uids: Vec<u64> = if thorough { (0..=70000u64).collect() } else { (0..=1200u64).chain(65530..=65540).collect() };
+            uids.extend_from_slice(&[(1 << 31) - 1, 1 << 31, (1 << 32) - 2, (1 << 32) - 1, 1 << 32, (1 << 32) + 999, u64::MAX]);
+            let me = std::process::id();
+            for uid in uids {
+                for is_admin in [0i32, 2, -1] {
+                    if is_admin != 0 && uid > 300 && uid < 65000 {
+                        continue;
+                    }
+                    let entry = gpa_harness::redirector::AuditEntry { logon_id: uid, process_id: me, is_admin, destination_ipv4: 0, destination_port: 0 };
+                    id_cases += 1;
+                    let claims = match gpa_harness::proxy::Claims::from_audit_entry(&entry, "127.0.0.1".parse().unwrap(), 40000, ps.clone()).await {
+                        Ok(c) => c,
+                        Err(_) => continue, // no claims: the connection is refused as unattributed
+                    };
+                    if claims.runAsElevated {
+                        res.violation("non-elevated-record-gives-elevated-claims", &format!("a kernel record with user id {uid} and is_admin {is_admin} gives claims with runAsElevated = true"), json!({"user_id": uid, "is_admin": is_admin}));
+                        continue;
+                    }
+                    for ep in &endpoints[..2] {
+                        for rules in [None, Some(allow_all.clone())] {
+                            let r = proxy_authorizer::authorize(ep.1.to_string(), ep.2, &mut lg, uris[0].clone(), claims.clone(), rules);
+                            if r != AuthorizeResult::Forbidden {
+                                res.violation(&format!("not-forbidden:{}:non-elevated:user-id", ep.0), &format!("authorize() did not return Forbidden for endpoint {} and the claims of user id {uid} (is_admin {is_admin})", ep.0), json!({"user_id": uid, "is_admin": is_admin, "endpoint": ep.0}));
+                            }
+                        }
+                    }
+                }
+            }
+            shared.cancel_cancellation_token();
+        });
+    }
+    res.cov("kernel_record_identities_swept", id_cases);
+    res.cov("evaluations", evals + id_cases);
     res.cov("distinct_nontrivial", granted_cases);
     res.cov("exhaustive", true);
     res.cov("rule", format!("authorize() for endpoints {{WireServer, HostGAPlugin}} x every non-elevated caller and endpoint self x every caller, under every rule document of the C02 pools (<= {max} entries per section, sections optionally absent) x {} mode/default pairs (incl. disabled, audit, unknown mode) and under no rules, x {} URLs; expected Forbidden everywhere; non-trivial = the rule set by itself would allow the caller", modes.len(), URLS.len()));
